@@ -61,6 +61,14 @@ func c07SigClass(in *c07In) (string, string) {
 	if in.Signal {
 		mode += "-sigusr1"
 	}
+	shut := in.ShutErr0
+	for _, r := range in.Reloads {
+		shut = shut || r.ShutErr
+	}
+	if shut {
+		// a class of its own: the instance being replaced has a failing OnShutdown callback
+		return "hist:" + mode + ":old-onshutdown-error", mode + ":old-onshutdown-error"
+	}
 	return "hist:" + mode + ":" + strings.Join(ks, "+"), mode
 }
 
